@@ -392,6 +392,20 @@ def _leg_fill(chk: Check, job: dict[str, Any]) -> None:
             chk.hit("filled_4094")
         for _ in range(3):
             ls.allocate(1)  # table full although space remains: must refuse
+        # full table with room in a gap that is NOT the tail gap (first entry, a middle entry, the last entry): free
+        # an entry of length >= 2, re-fill the table with a 1-byte allocation, then ask for one more
+        if len(ls.model.live) == M.MAX_ENTRIES:
+            for pick in ("first", "middle", "last"):
+                cands = [e for e in ls.model.live if e[1] >= 2]
+                if not cands:
+                    break
+                e = cands[0] if pick == "first" else (cands[-1] if pick == "last" else cands[len(cands) // 2])
+                ls.free(e[0])
+                ls.allocate(1)
+                if len(ls.model.live) == M.MAX_ENTRIES:
+                    chk.hit("full_table_with_inner_gap")
+                    for size in (1, 1, 2):
+                        ls.allocate(size)  # the reference refuses: 4094 entries
         for _ in range(job["churn"]):
             if ls.model.live and (ls.model.full() or rng.random() < 0.5):
                 ls.free(rng.choice(ls.model.live)[0])
@@ -844,6 +858,7 @@ def main(tier: str, seed: int) -> int:
         "refused_table_full",
         "exact_fit_placed",
         "filled_4094",
+        "full_table_with_inner_gap",
         "data_region_untouched_by_allocator",
         "write_checked",
         "write_next_to_live_region",
